@@ -481,6 +481,14 @@ def _ltinput(ctx, kids):
         ctx.hidden.append('Hzzq')
 
 
+@reg('ltinputempty', cls='hidden')
+def _ltinputempty(ctx, kids):
+    # a readable file of length zero: nothing is defined, nothing is wrong
+    ctx.open('ltinput', ())
+    ctx.w('\\LTinput{ymcempty.tex}')
+    ctx.close()
+
+
 @reg('verbatimspace', cls='verbatim', par=True)
 def _verbatimspace(ctx, kids):
     ctx.open('verbatim', WS)
@@ -569,8 +577,11 @@ def _proofopt(ctx, kids):
 
 @reg('theorem', slots=1, cls='gen', par=True)
 def _theorem(ctx, kids):
-    ctx.w('\\newtheorem{thm}{Gthq}')
-    ctx.gap()
+    if not getattr(ctx, 'thm_declared', False):
+        # declared where first used, re-used afterwards (repeated uses share the declaration)
+        ctx.thm_declared = True
+        ctx.w('\\newtheorem{thm}{Gthq}')
+        ctx.gap()
     ctx.open('theorem-frame', WS)
     n = ctx.open('theorem-begin', WS)
     ctx.w('\\begin{thm}')
@@ -585,8 +596,11 @@ def _theorem(ctx, kids):
 
 @reg('theoremopt', slots=2, cls='gen', par=True)
 def _theoremopt(ctx, kids):
-    ctx.w('\\newtheorem{thm}{Gthq}')
-    ctx.gap()
+    if not getattr(ctx, 'thm_declared', False):
+        # declared where first used, re-used afterwards (repeated uses share the declaration)
+        ctx.thm_declared = True
+        ctx.w('\\newtheorem{thm}{Gthq}')
+        ctx.gap()
     ctx.open('theorem-frame', WS)
     n = ctx.open('theorem-begin', WS)
     ctx.w('\\begin{thm}[')
@@ -823,6 +837,42 @@ user_macro('um_optbare', 1, 'newcommand', [('t', '('), ('a', 0), ('t', ')')], de
 user_macro('um_optgiven', 2, 'newcommand', [('a', 0), ('t', '+'), ('a', 1)], default=True, give_option=True)
 
 
+@reg('um_remember', slots=1, cls='user')
+def _um_remember(ctx, kids):
+    """print-and-remember idiom: the macro copies its argument and stores it in a second macro, which is used
+    afterwards.  First copy = document text with its own positions; second copy = text generated by the later call."""
+    if not getattr(ctx, 'rem_declared', False):
+        ctx.rem_declared = True
+        ctx.w('\\newcommand{\\mUlast}{}\\newcommand{\\mUrem}[1]{#1\\renewcommand{\\mUlast}{#1}}')
+        ctx.gap()
+    n = ctx.open('um_remember', WS)
+    a0 = ctx.w('\\mUrem{')
+    fl = []
+    d0 = len(ctx.detached)
+    ctx.stack.append(fl)
+    slot(ctx, kids[0])
+    ctx.stack.pop()
+    ctx.w('}')
+    if '#' in ctx.src()[a0:]:
+        raise Invalid('a definition with parameters inside a remembered argument (LaTeX needs ## there)')
+    if ctx.detached[d0:]:
+        raise Invalid('detached flow inside a remembered argument')
+    for sg in fl:
+        ctx.seg(sg)
+    ctx.close()
+    ctx.gap()
+    m = ctx.open('um_last', WS)
+    ctx.w('\\mUlast{}')
+    for sg in fl:
+        if isinstance(sg[1], str) and sg[1]:
+            ctx.gen(sg[1], m)
+            if WORD_RE.fullmatch(sg[1]):
+                ctx.facts.setdefault('printed_again', set()).add(sg[1])
+        else:
+            raise Invalid('pattern-valued text inside a remembered argument')
+    ctx.close()
+
+
 def preamble_text(features, sedname='ymc.sed'):
     s = ''
     if 'gls' in features:
@@ -982,7 +1032,8 @@ def render(forest, sep=' ', lang='en', sedname='ymc.sed', frame='full'):
 
 
 def expected_words(r):
-    return [s[1] for f in r.flows for s in f if s[0] == 'C' and WORD_RE.fullmatch(s[1])]
+    # (a word in a generated segment: the argument text printed again by a remembering macro)
+    return [s[1] for f in r.flows for s in f if s[0] in 'CG' and isinstance(s[1], str) and WORD_RE.fullmatch(s[1])]
 
 
 def align(r, plain):
